@@ -541,8 +541,10 @@ func endToEnd(run *vk.Run, dir string, w *world.World) {
 	run.Distinct("end-to-end")
 }
 
-// HostileForC14 plays every one- and two-message conversation of the alphabet, plus oversized and binary variants, with all
-// UI callbacks present, and judges only panics and hangs (C14: a plugin's protocol output is hostile input too).
+var asksUI = map[string]bool{"msg": true, "req_secret": true, "req_public": true, "confirm1": true, "confirm2": true, "confirm_bad64": true, "x_confirm9": true}
+
+// HostileForC14 plays every one- and two-message conversation of the alphabet, plus oversized and binary variants, with the
+// UI callbacks present, absent and failing, and judges only panics and hangs (C14: a plugin's protocol output is hostile input too).
 func HostileForC14(run *vk.Run) {
 	dir := Setup()
 	w := world.New(run.Seed)
@@ -553,13 +555,21 @@ func HostileForC14(run *vk.Run) {
 	for _, mode := range []string{"recipient", "identity"} {
 		for _, a := range alpha {
 			for _, b := range append([]string{""}, "done", "confirm3", "msg", "x_confirm9") {
-				c := pcase{Mode: mode}
-				c.UI.Disp, c.UI.Req, c.UI.Conf = "ok", "ok", "yes"
-				c.Script = []string{a}
-				if b != "" {
-					c.Script = append(c.Script, b)
+				// the application's callbacks in every configuration the ClientUI documentation allows (any of them
+				// may be nil, any may fail) for the messages that reach a callback; all present otherwise
+				uis := [][3]string{{"ok", "ok", "yes"}}
+				if asksUI[a] || asksUI[b] {
+					uis = append(uis, [3]string{"nil", "nil", "nil"}, [3]string{"err", "err", "err"}, [3]string{"ok", "nil", "no"}, [3]string{"nil", "ok", "nil"})
 				}
-				cases = append(cases, c)
+				for _, u := range uis {
+					c := pcase{Mode: mode}
+					c.UI.Disp, c.UI.Req, c.UI.Conf = u[0], u[1], u[2]
+					c.Script = []string{a}
+					if b != "" {
+						c.Script = append(c.Script, b)
+					}
+					cases = append(cases, c)
+				}
 			}
 		}
 	}
